@@ -3,6 +3,7 @@ package checks
 import (
 	"fmt"
 	"runtime/debug"
+	"time"
 
 	txfile "github.com/elastic/go-txfile"
 
@@ -136,6 +137,9 @@ func RunC08(p *harness.Program, thorough bool) Result {
 			return Result{V: v, Counters: c}
 		}
 		if v := shrinkReleaseFaults(p.Cfg, aux(p, 1), c); v != nil {
+			return Result{V: v, Counters: c}
+		}
+		if v := mixedBatchFaults(p.Cfg.PageSize, aux(p, 1), c); v != nil {
 			return Result{V: v, Counters: c}
 		}
 	}
@@ -707,6 +711,167 @@ func shrinkReleaseFaults(cfg harness.Config, seed uint64, c map[string]int) (v *
 					return vv
 				}
 			}
+		}
+	}
+	return nil
+}
+
+// mixedBatchFaults: a write failure inside a writer batch that holds page writes of TWO transactions.
+// The background writer is parked at its first write while a transaction that is then closed without
+// Commit (its flushed pages stay queued: Close does not wait for the writer) and a second transaction
+// queue their page writes; then one write call of the batch fails (every position is tried, error
+// before effect and short write) and the second transaction commits. If Commit returns nil all its
+// pages must hold the new contents (in process and after a reopen), otherwise the old state must be
+// intact; afterwards a further transaction commits.
+func mixedBatchFaults(pageSize uint32, seed uint64, c map[string]int) (v *harness.Violation) {
+	defer func() {
+		if x := recover(); x != nil {
+			v = &harness.Violation{Clause: "panic", Item: -1, Msg: fmt.Sprintf("mixed writer batch under a write failure: panic: %v [%s]", x, harness.TrimStack(debug.Stack()))}
+		}
+	}()
+	ps := int(pageSize)
+	rnd := harness.NewRand(seed ^ 0xba7c4)
+	n0 := 10 + int(rnd()%8)
+	for k := 0; k < 40; k++ {
+		for _, mode := range []simdisk.FaultMode{simdisk.FailBefore, simdisk.FailShort} {
+			d := simdisk.New("mixed")
+			d.SetRecord(false)
+			f, err := txfile.VerifOpen(d, txfile.Options{PageSize: pageSize, MaxSize: 1024 * uint64(pageSize), InitMetaArea: 16})
+			if err != nil {
+				return &harness.Violation{Clause: "create", Item: -1, Msg: err.Error()}
+			}
+			model := map[txfile.PageID][]byte{}
+			fail := func(clause, format string, args ...interface{}) *harness.Violation {
+				func() {
+					defer func() { recover() }()
+					f.Close()
+				}()
+				return &harness.Violation{Clause: clause, Item: -1, Msg: fmt.Sprintf("mixed writer batch, failing write #%d (mode %d): ", k, mode) + fmt.Sprintf(format, args...)}
+			}
+			// tx0: committed pages
+			tx, _ := f.Begin()
+			pages, err := tx.AllocN(n0)
+			if err != nil {
+				return fail("alloc-error", "%v", err)
+			}
+			var ids []txfile.PageID
+			for i, pg := range pages {
+				b := harness.Content(880000+i, ps)
+				pg.SetBytes(append([]byte(nil), b...))
+				model[pg.ID()] = b
+				ids = append(ids, pg.ID())
+			}
+			if err := tx.Commit(); err != nil {
+				return fail("commit-error", "setup commit failed: %v", err)
+			}
+			f.VerifDrainWriter()
+			// park the writer, queue the writes of tx1 (abandoned) and tx2
+			parked := d.Hold(simdisk.CallWrite)
+			tx1, _ := f.Begin()
+			for i := 1; i < n0; i += 2 {
+				if pg, err := tx1.Page(ids[i]); err == nil {
+					pg.SetBytes(harness.Content(881000+i, ps))
+				}
+			}
+			if np, err := tx1.AllocN(2); err == nil {
+				for _, pg := range np {
+					pg.SetBytes(harness.Content(881500, ps))
+				}
+			}
+			tx1.Flush()
+			select {
+			case <-parked:
+			case <-time.After(HangTimeout):
+				return fail("hang", "the background writer did not start writing")
+			}
+			tx1.Close()
+			tx2, err := f.Begin()
+			if err != nil {
+				d.Release()
+				return fail("begin", "Begin after an abandoned transaction failed: %v", err)
+			}
+			want := map[txfile.PageID][]byte{}
+			for id, b := range model {
+				want[id] = b
+			}
+			for i := 0; i < n0; i += 2 {
+				if pg, err := tx2.Page(ids[i]); err == nil {
+					b := harness.Content(882000+i, ps)
+					pg.SetBytes(append([]byte(nil), b...))
+					want[ids[i]] = b
+				}
+			}
+			tx2.Flush()
+			queued := f.VerifWriterQueue().Scheduled
+			if k > queued+3 {
+				d.Release()
+				tx2.Close()
+				f.Close()
+				return nil // every position of this batch has been tried
+			}
+			fault := simdisk.Fault{Kind: simdisk.CallWrite, Ordinal: k, Burst: 1, Mode: mode}
+			d.Arm(&fault)
+			d.Release()
+			err = tx2.Commit()
+			c["mixed-batch-runs"]++
+			d.Arm(nil)
+			f.VerifDrainWriter()
+			state := model
+			if err == nil {
+				state = want
+				c["mixed-batch-commit-ok"]++
+			} else {
+				c["mixed-batch-commit-failed"]++
+			}
+			check := func(file *txfile.File, when string) *harness.Violation {
+				rtx, err := file.BeginReadonly()
+				if err != nil {
+					return fail("begin", "%s: BeginReadonly failed: %v", when, err)
+				}
+				defer rtx.Close()
+				for id, b := range state {
+					pg, err := rtx.Page(id)
+					var got []byte
+					if err == nil {
+						got, err = pg.Bytes()
+					}
+					if err != nil {
+						return fail("content-access", "%s: page %d: %v", when, id, err)
+					}
+					if string(got) != string(b) {
+						return fail("content-mismatch", "%s: page %d reads %s, expected %s", when, id, harness.Stamp(got), harness.Stamp(b))
+					}
+				}
+				return nil
+			}
+			commitErr := err
+			if vv := check(f, fmt.Sprintf("in process (Commit returned %v)", commitErr)); vv != nil {
+				return vv
+			}
+			// a further transaction commits
+			tx3, err := f.Begin()
+			if err != nil {
+				return fail("begin", "Begin after the failure stopped: %v", err)
+			}
+			if pg, err := tx3.Page(ids[0]); err == nil {
+				b := harness.Content(883000+k, ps)
+				pg.SetBytes(append([]byte(nil), b...))
+				state[ids[0]] = b
+			}
+			if err := tx3.Commit(); err != nil {
+				return fail("post-fault-commit-failed", "the failure had stopped, but the next Commit failed: %v", err)
+			}
+			if err := f.Close(); err != nil {
+				return fail("close", "%v", err)
+			}
+			f, err = txfile.VerifOpen(d, txfile.Options{})
+			if err != nil {
+				return fail("reopen-after-faults", "reopen failed: %v", err)
+			}
+			if vv := check(f, fmt.Sprintf("after reopen (Commit had returned %v)", commitErr)); vv != nil {
+				return vv
+			}
+			f.Close()
 		}
 	}
 	return nil
